@@ -44,7 +44,7 @@ _add(
 _add(
     "C13",
     rule="(a) RecordTensor built with (dt, duration, inclusive) incl. non-representable ratios over 7 storage kinds, id-filled to several fill levels and pointer positions, then 1-4 assignments of dt / duration / inclusive judged by the literal size formula and read(k) before/after; (b) add/edit/remove of shape constraints on an initialised record; (c) random reconstrain add/edit/remove + value assignment sequences on ShapedTensor (strict and non-strict, positive and negative dims, buffer/Parameter/None/empty) against a dict model. One evaluation = one assignment / reconstrain judged. distinct = (part, operation, grow/shrink/no-op, storage state and kind, size classes, strictness, dim sign) abstractions.",
-    required=["resize_readbacks", "temporal.grow.initialised", "temporal.shrink.initialised", "temporal.grow.uninitialised", "temporal.shrink.uninitialised", "recshape_ops", "shaped_reconstrain_ops", "shaped_refusals", "valid_flag_checks", "flag_toggles", "compatible_queries"],
+    required=["resize_readbacks", "temporal.grow.initialised", "temporal.shrink.initialised", "temporal.grow.uninitialised", "temporal.shrink.uninitialised", "recshape_ops", "shaped_reconstrain_ops", "shaped_refusals", "valid_flag_checks", "flag_toggles", "compatible_queries", "lazy_recshape_ops"],
     floor={"quick": 150, "thorough": 250},
     text="Held on every resize / reconstrain explored: each assignment of dt, duration, inclusive or a shape constraint on the real RecordTensor / ShapedTensor is followed by a comparison of the record size with the literal formula, of read(k) with the values read before (unique ids; zeros in new slots) and of the constraint bookkeeping with a dictionary model, including refusals that must have no side effects.",
     technique="runtime monitoring: before/after observation monitor + dict reference model on the real temporal setters and reconstrain over generated configurations",
@@ -76,7 +76,7 @@ _add(
          "frequency*refrac<1000 limit, and for the Bernoulli encoders also above one expected spike per step (clamped); 1-300 steps; intensities in [0,1] with exact zeros and ones), run twice from the "
          "same generator state. Non-trivial: the refractory encoder, or any case with a zero-intensity element; "
          "distinct = (encoder, online, module, dt, refractory, compensation, steps class, zero pattern, rank) abstractions.",
-    required=["shape_dtype_checks", "reproducibility_checks", "zero_intensity_elements", "refractory_gaps_checked", "zero_intensity_element_steps_in_storms"],
+    required=["shape_dtype_checks", "reproducibility_checks", "zero_intensity_elements", "refractory_gaps_checked", "zero_intensity_element_steps_in_storms", "setter_configured_encoders"],
     floor={"quick": 200, "thorough": 400},
     text="Held on every generator seed explored: the real encoders are run over a seed sweep and every output is "
          "checked for dtype, shape / slice count, silence of zero-intensity elements, the minimum spike gap of the "
@@ -374,7 +374,7 @@ _add(
          "expected number of folds (1 iff trainer and that cell's layer are training, else 0) and probe monitors for "
          "holding the current attribute of their own layer. One evaluation = one operation; non-trivial = everything but "
          "bare mode switches; distinct = (operation, trainer kind, layer, registration counts, sharing, modes).",
-    required=["layer_steps", "slot_observations_checked", "probe_values_checked", "trainer_steps", "listing_checks"],
+    required=["layer_steps", "slot_observations_checked", "probe_values_checked", "trainer_steps", "listing_checks", "rejected_duplicate_registrations"],
     floor={"quick": 100, "thorough": 300},
     text="Held on every operation sequence explored (apart from listed findings): fold counts per registered monitor "
          "slot follow an explicit registration / mode state machine after every layer step, probe monitors hold the "
